@@ -664,6 +664,47 @@ class Privacy:
             return [d for d in dyn if d in pl], False
         return dyn, True
 
+    def passed_depth(self, creator, clo):
+        """depth (relative to the creator's entry) of the scope an immediate closure is called with.  0 when the closure captures the scope or is called in place; when the
+        closure takes the scope as its parameter and is handed, in the statement that creates it, to a local function that calls this parameter with its own scope argument after
+        pushes of its own (`with_context(scope, ctx, |scope| ..)`), it is the depth at the handing site plus the depth at the helper's call of the parameter."""
+        F, A = self.F, self.A
+        b = F.bodies[creator]
+        for bi, bl in enumerate(b["blocks"]):
+            made = [st[1][0] for st in bl["s"] if st[0] == "A" and st[2][0] == "Agg" and isinstance(st[2][1], list) and st[2][1][0] == "closure" and st[2][1][1] == clo and len(st[1]) == 1]
+            t = bl["t"]
+            if not made or t[0] != "call":
+                continue
+            g = t[1]["f"].get("p")
+            args = t[1].get("args", [])
+            pos = [i for i, a in enumerate(args) if a[0] in ("C", "M") and len(a[1]) == 1 and a[1][0] in made]
+            gs = A.summaries.get(g)
+            if g not in F.bodies or gs is None or not pos or not gs.deltas <= {0}:
+                return 0
+            gb = F.bodies[g]
+            inner = []
+            for gi, gl in enumerate(gb["blocks"]):
+                gt = gl["t"]
+                if gt[0] != "call" or not re.search(r"ops::function::Fn(Once|Mut)?::call(_once|_mut)?$", gt[1]["f"].get("p") or "") or not gt[1].get("args"):
+                    continue
+                a0 = gt[1]["args"][0]
+                GB = mirutil.Body(F, gb)
+                l = a0[1][0] if a0[0] in ("C", "M") and len(a0[1]) == 1 else None
+                for _ in range(4):
+                    ds = GB.defs.get(l, []) if l is not None else []
+                    if len(ds) == 1 and ds[0][2] == "assign" and ds[0][3][2][0] in ("Use", "Ref"):
+                        src = ds[0][3][2][1] if ds[0][3][2][0] == "Use" else ("C", ds[0][3][2][2])
+                        l = src[1][0] if src[0] in ("C", "M") and len(src[1]) in (1, 2) else None
+                    else:
+                        break
+                if l is not None and l == pos[0] + 1 and gi in gs.site_depth:
+                    inner.append(gs.site_depth[gi])
+            if not inner:
+                return 0
+            outer = A.summaries[creator].site_depth.get(bi, 0) if creator in A.summaries else 0
+            return outer + min(inner)
+        return 0
+
     def compute(self, api_roots):
         """private[body] for every body that touches an external scope"""
         F, A = self.F, self.A
@@ -700,7 +741,7 @@ class Privacy:
             # immediate closures capturing the scope inherit the creator's privacy at the creation depth
         for clo, creator in self.G.creator.items():
             if clo in private and creator in private and clo not in self.G.deferred:
-                sites.append((creator, clo, 0, F.bodies[clo].get("line"), False))
+                sites.append((creator, clo, self.passed_depth(creator, clo), F.bodies[clo].get("line"), False))
         changed = True
         while changed:
             changed = False
